@@ -461,6 +461,11 @@ func TestCheck(t *testing.T) {
 			for n := rapid.IntRange(1, 40).Draw(t, "n"); n > 0; n-- {
 				ops = append(ops, cfg.Draw(t)...)
 			}
+			if rapid.IntRange(0, 2).Draw(t, "root-glob") == 0 {
+				// a wildcard in the first component below the root / the volume root (the pattern's
+				// directory part is then the root itself); "w" is the only name both roots share
+				ops = append(ops, fsx.Op{K: "Glob", P: rapid.SampledFrom([]string{"/w*", "/w*/*", "/[w]/a*", "/?/*", "/w*/a/*"}).Draw(t, "rg")})
+			}
 			if dev := runHist(c, kind, ops); dev != nil {
 				return &vt.Failure{Dev: dev, Replay: Case{Kind: "hist", FS: kind, Ops: ops}}
 			}
